@@ -30,8 +30,8 @@ type loopInfo struct {
 	header   *ssa.BasicBlock
 	blocks   map[*ssa.BasicBlock]bool
 	backFrom []*ssa.BasicBlock
-	headSt   *State // state right after havoc+assume at the header
-	decAt    string // value of the decreases measure at the header
+	headSt   *State    // state right after havoc+assume at the header
+	decAt    string    // value of the decreases measure at the header
 	rangeIt  ssa.Value // map range iterator, if this is a map range loop
 }
 
@@ -53,9 +53,9 @@ type Frame struct {
 }
 
 type mapIter struct {
-	mi      *mapInfo
-	ref     string
-	visited string // term: (Array K Bool)
+	mi         *mapInfo
+	ref        string
+	visited    string // term: (Array K Bool)
 	keyT, valT types.Type
 }
 
@@ -906,11 +906,26 @@ func (vc *VC) sliceOp(fr *Frame, x *ssa.Slice) SV {
 	newOff := vc.def(bvSort(64), "(bvadd "+off+" "+lo+")")
 	if lo != bvLitI(0, 64) {
 		newOff = vc.ix(off, lo)
+		if vc.pure == 0 {
+			// the window difference, spelled out for frame checks (see inWindow)
+			vc.assume("(= (bvsub " + newOff + " " + off + ") " + lo + ")")
+		}
 	}
-	return SV{L: []string{base,
+	r := SV{L: []string{base,
 		newOff,
 		vc.def(bvSort(64), "(bvsub "+hi+" "+lo+")"),
 		vc.def(bvSort(64), "(bvsub "+mx+" "+lo+")")}}
+	if vc.pure == 0 {
+		// consequences of the bounds obligation above and the operand's own header invariant
+		vc.assume(and("(bvsle (_ bv0 64) "+r.L[2]+")", "(bvsle "+r.L[2]+" "+r.L[3]+")", "(bvsle "+r.L[3]+" "+cp+")"))
+		if vc.sliceProvs == nil {
+			vc.sliceProvs = map[string]sliceProv{}
+		}
+		// a chain element must keep the ancestor's capacity bound: rCap of this level
+		// is relative to this operand; deeper ancestors see it through provChain
+		vc.sliceProvs[newOff] = sliceProv{pOff: off, pCap: cp, rCap: r.L[3]}
+	}
+	return r
 }
 
 func (vc *VC) binop(fr *Frame, x *ssa.BinOp) SV {
